@@ -3,7 +3,7 @@
 # (so /repo stays untouched and other runs are not disturbed).
 set -u
 PATCH="$1"; PROP="$2"; TIER="${3:-quick}"; ONLY="${4:+-only $4}"
-WT=${VERIF_WT:-/tmp/wt/c16a}
+WT=${VERIF_WT:-/tmp/wt/mine}
 cd $WT || exit 2
 git checkout -q -- . ; git clean -fdq
 git checkout -q --detach $(git -C /repo rev-parse HEAD)
